@@ -48,7 +48,18 @@ static void lst_make_sequence(vp_rng_t* r, int mode, uint64_t idx, seq_t* s)
         uint32_t amode = (uint32_t)((idx / 28 + (uint64_t)d) % 4), dtc = codes[(idx + (uint64_t)d) % 28];
         size_t hdr = (size_t)(mode ? 4 : 0) + (size_t)(tscf ? 24 : 12);
         size_t n = build_valid(r, mode, tscf, b, amode, dtc, (uint32_t)vp_rng_below(r, 40), (uint32_t)vp_rng_below(r, 60), (uint32_t)vp_rng_next(r), 0x3fc00000);
-        switch ((idx / 3 + (uint64_t)d * 5) % 14) {
+        switch ((idx / 3 + (uint64_t)d * 5) % 16) {
+        case 14: case 15: {                /* a scalar value that straddles the end of a maximum-size datagram */
+            name = "value-straddles-end-of-1500-byte-datagram";
+            static const uint8_t sc[] = { 2, 3, 4, 5, 6, 7, 9, 10 };
+            uint32_t dt2 = sc[vp_rng_below(r, 8)];
+            uint32_t cut = 1 + (uint32_t)vp_rng_below(r, 7);             /* bytes of the value that still lie inside */
+            uint32_t plen2 = (uint32_t)(1500 - hdr - 12 - 2 - cut);
+            n = build_valid(r, mode, tscf, b, 0, dt2, plen2, 0, 0, 0x3fc00000);
+            if (tscf) Avtp_Tscf_SetStreamDataLength((Avtp_Tscf_t*)(b + (mode ? 4 : 0)), (uint16_t)(1500 - hdr)); else Avtp_Ntscf_SetNtscfDataLength((Avtp_Ntscf_t*)(b + (mode ? 4 : 0)), (uint16_t)(1500 - hdr));
+            Avtp_Vss_SetField((Avtp_Vss_t*)(b + hdr), AVTP_VSS_FIELD_ACF_MSG_LENGTH, (1500 - hdr) / 4);
+            n = 1500;
+            break; }
         case 12: case 13: {                /* short datagram whose headers announce far more than was sent */
             name = "announce-more-than-sent";
             n = build_valid(r, mode, tscf, b, 0, (idx & 1) ? 9 : 0x0B, 20, 10, 0, 0x3fc00000);
@@ -77,11 +88,17 @@ static void lst_make_sequence(vp_rng_t* r, int mode, uint64_t idx, seq_t* s)
 
 static int lst_child(int mode, const seq_t* s)
 {
-    (void)s;
     if (mainloop_setup() < 0) return EX_HARNESS;
     vp_rng_t r; vp_rng_seed(&r, 99, 1);
-    g_sentinel_len = (int)build_valid(&r, mode, 0, g_sentinel, 1, 9, 0, 0, 1234, 0x3fc00000);   /* static id 1234, float 1.5 */
-    g_expect = "VSS Path: 1234, VSS Value: 1.500000\n";
+    if (s->n && (s->len[0] & 1)) {        /* half of the runs: an interoperable path, shorter than hostile ones seen before */
+        uint8_t tmp[DGRAM_MAX]; memset(tmp, 0, sizeof tmp);
+        g_sentinel_len = (int)build_valid(&r, mode, 0, g_sentinel, 0, 9, 13, 0, 0, 0x3fc00000);
+        memcpy(g_sentinel + (mode ? 4 : 0) + 12 + 14, "Vehicle.Speed", 13);
+        g_expect = "VSS Path: Vehicle.Speed, VSS Value: 1.500000\n";
+    } else {
+        g_sentinel_len = (int)build_valid(&r, mode, 0, g_sentinel, 1, 9, 0, 0, 1234, 0x3fc00000);   /* static id 1234, float 1.5 */
+        g_expect = "VSS Path: 1234, VSS Value: 1.500000\n";
+    }
     char* argv_u[] = { "acf-vss-listener", "-u", 0 };
     char* argv_r[] = { "acf-vss-listener", "lo", "aa:bb:cc:dd:ee:ff", 0 };
     listener_main(mode ? 2 : 3, mode ? argv_u : argv_r);
